@@ -14,6 +14,10 @@
 //	(obs (calls ..) <outcome> (stored <bytes>|-))
 //
 // <op>: (stat n) (readdir n rec) (open n) (create n (chunk..)) (rm n) (mkdir n)
+// [a chunk is one Write call: a hex atom, or (p <start> <len>) = the bytes
+// patByte(start) .. patByte(start+len-1) of a fixed position-dependent pattern;
+// bodies of such cases are rendered losslessly as (b <segment>..) with the same
+// two segment forms, see bytesSx]
 // (copy n d norec noow) (move n d noow).  The (drv ..) part holds what the model takes
 // as input: the answers the backend actually gave, the tables of the library codecs
 // (net/url, strconv.Quote, HTTP dates, XML character data, MIME by extension)
@@ -213,6 +217,7 @@ type recFS struct {
 	infos   []webdav.FileInfo // every FileInfo the backend returned (for the codec tables)
 
 	lastCreate string // the name the last Create was given
+	pattern    bool   // the case writes pattern chunks: bodies are rendered compactly (bytesSx)
 }
 
 func (r *recFS) note(call, answer string) {
@@ -297,7 +302,7 @@ func (r *recFS) Create(ctx context.Context, name string, body io.ReadCloser, opt
 	r.mu.Lock()
 	r.lastCreate = name
 	r.mu.Unlock()
-	r.note(hx.L("create", hx.S(name), hx.S(got.String()), hx.S(string(opts.IfMatch)), hx.S(string(opts.IfNoneMatch))),
+	r.note(hx.L("create", hx.S(name), bytesSx(got.Bytes(), r.pattern), hx.S(string(opts.IfMatch)), hx.S(string(opts.IfNoneMatch))),
 		hx.L("create", hx.S(name), ans))
 	return fi, created, err
 }
@@ -543,6 +548,13 @@ func runCase(c caseIn, dir string) (line string) {
 		panic("bad backend")
 	}
 	rec := &recFS{inner: inner}
+	if c.op.Head() == "create" {
+		for _, ch := range c.op.Args()[1].List {
+			if ch.IsList {
+				rec.pattern = true
+			}
+		}
+	}
 	handler := &webdav.Handler{FileSystem: rec}
 
 	var hc webdav.HTTPClient
@@ -610,7 +622,7 @@ func runCase(c caseIn, dir string) (line string) {
 		} else {
 			var werr error
 			for _, ch := range a[1].List {
-				if _, werr = wc.Write([]byte(ch.Str())); werr != nil {
+				if _, werr = wc.Write(chunkBytes(ch)); werr != nil {
 					break
 				}
 			}
@@ -646,7 +658,7 @@ func runCase(c caseIn, dir string) (line string) {
 	if local && c.op.Head() == "create" && out == "(done)" {
 		if hp, err := webdav.VerifLocalPath(webdav.LocalFileSystem(dir), rec.lastCreate); err == nil {
 			if b, err := os.ReadFile(hp); err == nil {
-				stored = hx.S(string(b))
+				stored = bytesSx(b, rec.pattern)
 			} else {
 				stored = hx.S("UNREADABLE: " + err.Error())
 			}
@@ -742,4 +754,99 @@ func hexDecode(h string) (string, error) {
 	x := hx.Sx{Atom: "x" + h}
 	defer func() { recover() }()
 	return x.Str(), nil
+}
+
+// ---------------------------------------------------------------- pattern bytes
+
+// patByte is a fixed, position-dependent byte pattern: a write schedule whose
+// k-th Write carries patByte(off_k .. off_k+len_k) makes any reordering,
+// duplication or loss of bytes visible in the stored content.
+func patByte(i int) byte { return byte((uint32(i) * 2654435761) >> 24) }
+
+const patMax = 1 << 20
+
+var (
+	patOnce  sync.Once
+	patData  []byte
+	patIndex map[uint32][]int32
+)
+
+func patInit() {
+	patOnce.Do(func() {
+		patData = make([]byte, patMax)
+		for i := range patData {
+			patData[i] = patByte(i)
+		}
+		patIndex = make(map[uint32][]int32, patMax)
+		for i := 0; i+4 <= patMax; i++ {
+			k := uint32(patData[i]) | uint32(patData[i+1])<<8 | uint32(patData[i+2])<<16 | uint32(patData[i+3])<<24
+			patIndex[k] = append(patIndex[k], int32(i))
+		}
+	})
+}
+
+// chunkBytes: the bytes of one Write of a create op.
+func chunkBytes(x hx.Sx) []byte {
+	if !x.IsList {
+		return []byte(x.Str())
+	}
+	a := x.Args()
+	start, n := int(a[0].Int()), int(a[1].Int())
+	b := make([]byte, n)
+	for i := range b {
+		b[i] = patByte(start + i)
+	}
+	return b
+}
+
+func patMatch(b []byte, off int) int {
+	n := 0
+	for n < len(b) && off+n < patMax && b[n] == patData[off+n] {
+		n++
+	}
+	return n
+}
+
+// bytesSx renders observed bytes: a hex atom, or (when the case wrote pattern
+// chunks) the lossless form (b seg..), seg = (p <start> <len>) for a run equal to
+// the pattern at some offset, or a hex atom for anything else.
+func bytesSx(b []byte, pattern bool) string {
+	if !pattern {
+		return hx.S(string(b))
+	}
+	patInit()
+	items := []string{"b"}
+	var lit []byte
+	flush := func() {
+		if len(lit) > 0 {
+			items = append(items, hx.S(string(lit)))
+			lit = nil
+		}
+	}
+	for j := 0; j < len(b); {
+		bestOff, bestLen := -1, 0
+		if j < patMax {
+			if l := patMatch(b[j:], j); l >= 16 {
+				bestOff, bestLen = j, l
+			}
+		}
+		if bestLen == 0 && j+4 <= len(b) {
+			k := uint32(b[j]) | uint32(b[j+1])<<8 | uint32(b[j+2])<<16 | uint32(b[j+3])<<24
+			for _, off := range patIndex[k] {
+				if l := patMatch(b[j:], int(off)); l > bestLen {
+					bestOff, bestLen = int(off), l
+				}
+			}
+		}
+		if bestLen >= 16 {
+			flush()
+			items = append(items, hx.L("p", hx.I(int64(bestOff)), hx.I(int64(bestLen))))
+			j += bestLen
+		} else {
+			lit = append(lit, b[j])
+			j++
+		}
+	}
+	flush()
+	return hx.L(items...)
 }
